@@ -218,6 +218,26 @@ def rand_expr(rng, depth, cmp=False):
     return {"op": "fgroup", "f": rng.choice(["title", "body"]), "e": strip_fields(sub())}
 
 
+def rand_stopped(rng):
+    """clauses written side by side, some of them words the analyzer removes, alone or as a whole parenthesised /
+    field group ("a the", "a (the)", "the title:(the the) b"): they are gone from the query"""
+    stop = lambda f="": {"op": "stop", "f": f}
+    kids = [rand_leaf_simple(rng) for _ in range(rng.randrange(1, 3))]
+    for _ in range(rng.randrange(1, 3)):
+        form = rng.choice(["word", "word", "group", "fgroup", "fword"])
+        if form == "word":
+            x = stop()
+        elif form == "fword":
+            x = stop(rng.choice(["title", "body"]))
+        elif form == "group":
+            x = {"op": "group", "kids": [stop() for _ in range(rng.randrange(1, 3))]}
+        else:
+            x = {"op": "fgroup", "f": rng.choice(["title", "body"]),
+                 "e": {"op": "group", "kids": [stop() for _ in range(rng.randrange(1, 3))]}}
+        kids.insert(rng.randrange(0, len(kids) + 1), x)
+    return {"op": "group", "kids": kids}
+
+
 def strip_fields(e):
     """Inside f:( ... ) the generated clauses carry no field prefix of their own (a nested prefix is
     also legal and is generated separately by leaving some)."""
@@ -276,6 +296,8 @@ def semantic(run, rng, nworlds, nexprs):
                 for pname, (parser, cfg, lang) in sorted(parsers.items()):
                     exprs = [rand_expr(rng, rng.randrange(0, 4), cmp=(lang == "full+cmp")) if lang.startswith("full")
                              else rand_pm(rng) for _ in range(nexprs)]
+                    if lang.startswith("full"):
+                        exprs += [rand_stopped(rng) for _ in range(max(2, nexprs // 6))]
                     cases.append({"idx": idx, "cfg": cfg, "parser": pname, "qs": [{"e": e, "obs": []} for e in exprs]})
                 # phase 1: TLC renders the expressions
                 res = _tlc_json(cases, "QueryLangRender.cfg")
